@@ -27,8 +27,9 @@ class Instance(object):
 
 
 class LifterModel(object):
-    def __init__(self, ctx, opmodes=('u32',), rich=False):
+    def __init__(self, ctx, opmodes=('u32',), rich=False, concrete=False):
         self.ctx = ctx
+        self.concrete = concrete
         self.X = x86model(ctx)
         self.sem = ctx.mod('ia32_sem')
         self.eh = ctx.mod('emul_helper')
@@ -64,15 +65,14 @@ class LifterModel(object):
         afs = self.X.afs
         return {afs.ad: False, n: 1, afs.size: size}
 
+    def cval(self, size):
+        if not self.concrete:
+            return None
+        return {8: 0x11, 16: 0x1122, 32: 0x11223344}[size]
+
     def MEM(self, size, admode='u32', lea=False):
         afs = self.X.afs
-        d = {5: 1, afs.imm: ModVal(32 if admode == 'u32' else 16, None), afs.size: size}
-        if lea:
-            d[afs.size] = True
-            d[afs.ad] = True
-        else:
-            d[afs.ad] = size
-        return d
+        return {afs.ad: True, 5: 1, afs.imm: ModVal(32 if admode == 'u32' else 16, self.cval(32)), afs.size: size}
 
     def IMM(self, mv):
         afs = self.X.afs
@@ -80,6 +80,8 @@ class LifterModel(object):
 
     def intsize(self, modifs, opmode, ext=False, val=None):
         E = self.X.env
+        if val is None and self.concrete:
+            val = self._cimm
         if ext:
             return ModVal(32 if opmode == 'u32' else 16, val)
         if modifs.get(E['w8']):
@@ -87,28 +89,42 @@ class LifterModel(object):
         return ModVal(32 if opmode == 'u32' else 16, val)
 
     def _build_instances(self):
+        """One instance per live decoder variant: (cell name, row, modifier set, opcode bytes) taken from the statically
+        expanded trie, so that rows shadowed by later rows and non-final condition-code aliases do not appear."""
         X, E, afs = self.X, self.X.env, self.X.afs
         seen = set()
-        for row, opc, modifs in X.variants:
-            names = [row.name]
-            if row.afs == E['cond']:
-                names = sorted(set(row.name + suf for lst in E['cond_list'] for suf in lst))
-            for name in names:
-                for opmode in self.opmodes:
-                    prefixes = [()]
-                    if modifs.get(E['mmx']):
-                        prefixes = [(), (0x66,), (0xF2,), (0xF3,)] if self.rich else [(), (0x66,)]
-                    for prefix in prefixes:
-                        for form, ops in self._forms(row, name, modifs, opmode, prefix):
-                            name2, ops2 = self._special(name, modifs, opmode, ops)
-                            k = (name2, form, opmode, prefix, tuple(sorted((str(a), str(b)) for a, b in modifs.items() if b is not None)))
-                            if k in seen:
-                                continue
-                            seen.add(k)
-                            tag = '%s;%s%s' % (form, opmode, (';pfx=' + ','.join('%02X' % p for p in prefix)) if prefix else '')
-                            self.instances.append(Instance(name2, row, modifs, opmode, prefix, ops2, tag))
+        variants = {}
+        for path, c in sorted(X.cells.items()):
+            if path[0] == 0x66:
+                continue     # 0x66 is consumed as a prefix by _dis: these rows are reached through their unprefixed twin
+            k = (c.name, c.row.idx, tuple(sorted((str(a), str(b)) for a, b in c.modifs.items() if b is not None)))
+            if k not in variants:
+                variants[k] = c
+                c.live = set()
+            variants[k].live.add(path[-1])
+        for k, c in sorted(variants.items(), key=lambda kv: (kv[1].row.idx, kv[0][0], kv[0][2])):
+            row, name, modifs, opc = c.row, c.name, c.modifs, c.opc
+            combos = []
+            if modifs.get(E['mmx']):
+                # the 0x66 byte is both the operand-size prefix and the mandatory SSE prefix
+                for prefix in ([(), (0x66,), (0xF2,), (0xF3,)] if self.rich else [(), (0x66,)]):
+                    combos.append(('u16' if prefix == (0x66,) else 'u32', prefix))
+            else:
+                combos = [(om, ()) for om in self.opmodes]
+            for opmode, prefix in combos:
+                for _once in (1,):
+                    for form, ops in self._forms(row, name, modifs, opmode, prefix, c.live):
+                        name2, ops2 = self._special(name, modifs, opmode, ops)
+                        kk = (name2, form, opmode, prefix, k[2], row.idx)
+                        if kk in seen:
+                            continue
+                        seen.add(kk)
+                        tag = '%s;%s%s' % (form, opmode, (';pfx=' + ','.join('%02X' % p for p in prefix)) if prefix else '')
+                        inst = Instance(name2, row, modifs, opmode, prefix, ops2, tag)
+                        inst.opc, inst.rowname = list(opc), name
+                        self.instances.append(inst)
 
-    def _forms(self, row, name, modifs, opmode, prefix):
+    def _forms(self, row, name, modifs, opmode, prefix, live=None):
         """Yield (form tag, operand dict list) as _dis builds mnemo_args for this row variant."""
         X, E, afs = self.X, self.X.env, self.X.afs
         w8, se, sw, sd, wd, mmx, sg, dr, cr = (E[k] for k in ('w8', 'se', 'sw', 'sd', 'wd', 'mmx', 'sg', 'dr', 'cr'))
@@ -127,18 +143,26 @@ class LifterModel(object):
                 S = afs.u08
             if modifs.get(wd):
                 S = afs.u16
+            live = live if live is not None else set(range(256))
+            live_reg = sorted(b & 7 for b in live if b >= 0xC0)
+            live_mem = any(b < 0xC0 for b in live)
             if modifs.get(mmx):
-                rn = (afs.reg_mm_base if prefix == () else afs.reg_xmm_base) + 1
-                base.append(('rm=reg', [self.REG(rn, S)]))
+                if live_reg:
+                    rn = {(): afs.reg_mm_base, (0x66,): afs.reg_xmm_base}.get(prefix, 0) + live_reg[-1]
+                    base.append(('rm=reg%d' % live_reg[-1], [self.REG(rn, S)]))
             else:
-                if not (rmr in dibs):
-                    base.append(('rm=reg', [self.REG(3, S)]))
-                    if S == afs.u08 and self.rich:
-                        base.append(('rm=reg8h', [self.REG(7, S)]))
-            base.append(('rm=mem', [self.MEM(S)]))
+                if not (rmr in dibs) and live_reg:
+                    r0 = 3 if 3 in live_reg else live_reg[0]
+                    base.append(('rm=reg%d' % r0, [self.REG(r0, S)]))
+                    if S == afs.u08 and self.rich and 7 in live_reg:
+                        base.append(('rm=reg7', [self.REG(7, S)]))
+            if live_mem:
+                base.append(('rm=mem', [self.MEM(S)]))
         elif afsk == E['reg']:
             S = afs.u08 if modifs.get(w8) else opm
-            base.append(('+r', [self.REG(3, S)]))
+            live_r = sorted(b & 7 for b in (live if live is not None else range(256)))
+            r0 = 3 if 3 in live_r else live_r[0]
+            base.append(('+r%d' % r0, [self.REG(r0, S)]))
         elif rmr in dibs:
             for tag, mafs, modr in self._rmr_forms(row, name, modifs, opmode, prefix):
                 ops = [mafs, modr]
@@ -159,8 +183,16 @@ class LifterModel(object):
             dib_out = []
             for dib in dibs:
                 if dib in (E['u08'], E['s08'], E['u16'], E['s16'], E['u32'], E['s32']):
+                    dk = dib
+                    if opmode != 'u32':
+                        dk = {E['u32']: E['u16'], E['s32']: E['s16']}.get(dib, dib)
+                    self._cimm = {E['u08']: 0x11, E['s08']: 0x11, E['u16']: 0x1122, E['s16']: 0x1122, E['u32']: 0x11223344, E['s32']: 0x11223344}[dk]
                     dib_out.append({afs.imm: self.intsize(modifs, opmode)})
                 elif dib in (E['imm'], E['ims']):
+                    if modifs.get(E['se']) or modifs.get(E['w8']):
+                        self._cimm = 0x11
+                    else:
+                        self._cimm = 0x11223344 if opmode == 'u32' else 0x1122
                     dib_out.append({afs.imm: self.intsize(modifs, opmode, ext=(dib == E['ims']))})
                 elif dib in (E['im1'], E['im3']):
                     dib_out.append({afs.imm: self.intsize(modifs, opmode, val=(1 if dib == E['im1'] else 3))})
@@ -173,7 +205,7 @@ class LifterModel(object):
                     else:
                         dib_out.append(r)
                 elif dib == E['mim']:
-                    dib_out.append({afs.ad: True, afs.size: afs.u08 if modifs.get(w8) else opm, afs.imm: ModVal(32, None)})
+                    dib_out.append({afs.ad: True, afs.size: afs.u08 if modifs.get(w8) else opm, afs.imm: ModVal(32, self.cval(32))})
                 elif dib == E['r_cl'] or dib == E['r_dx']:
                     dib_out.append(dict(dib))
                 elif dib in E['segm_regs']:
@@ -275,7 +307,7 @@ class LifterModel(object):
         alts = []
         if adm_ in (afs.u32, afs.u16, afs.mm, afs.xmm, afs.f64):
             alts.append(('reg,rm=reg', {afs.ad: False, rm_reg(adm_): 1}))
-            alts.append(('reg,rm=mem', {afs.ad: True, 5: 1, afs.imm: ModVal(32, None)}))
+            alts.append(('reg,rm=mem', {afs.ad: True, 5: 1, afs.imm: ModVal(32, self.cval(32))}))
         for tag, modr in alts:
             mafs = {afs.ad: False, (1 + reg_cat): 1}
             if modifs.get(w8):
@@ -294,6 +326,45 @@ class LifterModel(object):
                 mafs[afs.size] = opm_
             if modifs.get(sg):
                 mafs[afs.size] = afs.size_seg
+            if modr[afs.ad] and modifs.get(mmx):
+                n = row.name
+                p = list(prefix)
+                f32, f64 = afs.f32, afs.f64
+                if n == 'mov#d#':
+                    if p == [0x66]:
+                        modr[afs.size] = f32
+                    elif p == [0xF2]:
+                        continue          # NEVER site of _dis (C10)
+                    elif p == [0xF3]:
+                        modr[afs.size] = f64
+                elif '#ps#' in n or n == 'mov#ups#':
+                    if p == [0xF2]:
+                        modr[afs.size] = f64
+                    elif p == [0xF3]:
+                        modr[afs.size] = f32
+                elif '#s#' in n:
+                    if p == []:
+                        modr[afs.size] = f32
+                    elif p == [0x66]:
+                        modr[afs.size] = f64
+                    else:
+                        continue          # NEVER site of _dis (C10)
+                elif '#ps2pi' in n or '#ps2pd' in n:
+                    if p in ([], [0xF2]):
+                        modr[afs.size] = f64
+                    elif p == [0xF3]:
+                        modr[afs.size] = f32
+                elif '#pi2ps' in n:
+                    if p in ([], [0x66]):
+                        modr[afs.size] = f64
+                    else:
+                        modr[afs.size] = f32
+                elif '#pd2dq' in n:
+                    if p == [0xF3]:
+                        modr[afs.size] = f64
+                elif '#lps#' in n or '#hps#' in n:
+                    if p in ([], [0x66]):
+                        modr[afs.size] = f64
             yield tag, mafs, modr
 
     def _special(self, name, modifs, opmode, ops):
@@ -308,6 +379,10 @@ class LifterModel(object):
             name = 'pushfw'
         if u16 and name == 'popfd':
             name = 'popfw'
+        if u16 and name == 'cwde':
+            name = 'cbw'       # _dis switches to the 0x66-prefixed twin row
+        if u16 and name == 'cdq':
+            name = 'cwd'
 
         def smem(regname, seg, s):
             return {afs.reg_dict[regname]: 1, afs.ad: s, afs.size: s, afs.segm: afs.reg_sg.index(seg)}
@@ -359,11 +434,13 @@ class LifterModel(object):
                 if isinstance(val, LiftError):
                     inst.results = [([], LiftError(val.exc, 'dict_to_Expr(operand %d %s): %s' % (k, _dshow(od), val.msg), val.node))]
                     return inst
-                if isinstance(val, TInt) and val.mod.val is None:
+                if isinstance(val, TInt) and (val.mod.val is None) and not self.concrete:
                     val = TInt(val.mod, leaf='imm%d' % k)
                 args.append(val)
             inst.args = args
-            my_eip = TInt(ModVal(32, None), leaf='next_eip')
+            my_eip = TInt(ModVal(32, 0x1000 if self.concrete else None), leaf='next_eip')
+            if self.concrete:
+                info.offset = 0
             name = inst.name
             if name == 'jmp':
                 call_args = [info, args[0]] if (args and isinstance(args[0], TInt)) else [info] + args
